@@ -56,6 +56,17 @@ pub fn handle_ext(kind: &str, req: &Value) -> Result<Value, String> {
         Err(e) => Ok(json!({"rejected": e})),
       }
     },
+    "load_and_install" => {
+      // the loader followed by what remap does with an accepted layout: install it in a Mapper
+      match load_value(&req["value"]) {
+        Ok(l) => {
+          let mut mapper = crate::key_transforms::Mapper::for_layout(&l);
+          let _ = mapper.release_all();
+          Ok(json!({"layout": basic_layout_json(&l)}))
+        },
+        Err(e) => Ok(json!({"rejected": e})),
+      }
+    },
     "save_reload" => {
       // what add_systemd_service does (serde_json::to_writer_pretty of the basic layout) followed by what the service
       // does (load_layout_from_file) - through a temporary file
